@@ -26,7 +26,7 @@ RULE = ('split_path: directed corpus (docstring examples, boundaries), complete 
         'enumeration of pairs of items of length <= 2 over {comma, quote, backslash, space, a, n} and triples of '
         'length <= 1, seeded lists of 1..5 items over printable ASCII, damaged texts per malformation type; '
         'distinct by text')
-REQUIRED_CLAUSES = ['malformed-quoting-rejected-in-bounded-work', 'path-history-independent', 'concurrent-calls-answer-as-alone', 'under-lazy-translation', 'path-keyword-call', 'path-must-accept', 'path-must-reject', 'path-min-gt-max', 'path-no-leading-slash',
+REQUIRED_CLAUSES = ['path-under-warnings-as-errors', 'malformed-quoting-rejected-in-bounded-work', 'path-history-independent', 'concurrent-calls-answer-as-alone', 'under-lazy-translation', 'path-keyword-call', 'path-must-accept', 'path-must-reject', 'path-min-gt-max', 'path-no-leading-slash',
                     'path-empty-leading-segment', 'path-trailing-slash', 'path-rest-with-last',
                     'path-none-padding', 'path-dont-care-shape', 'path-result-shape',
                     'commas-round-trip', 'commas-return-type', 'commas-must-reject', 'commas-dont-care']
@@ -360,10 +360,23 @@ def eval_growth(ctx, case):
                   'growth_per_two_characters': [round(r, 1) for r in steps]})
 
 
+from vlib import envmodes as _em  # noqa: E402
+
+
 def evaluate(ctx, case):
     if case.get('kind') == 'growth':
         return eval_growth(ctx, case)
-    if case.get('lazy_i18n'):
+    if case.get('kind') == 'path' and case.get('warnings_as_errors') and not _em.MODES_OFF[0]:
+        # (split_path only: pyparsing itself warns about deprecated names while split_by_commas builds its grammar)
+        from vlib import envmodes
+        ctx.clause('path-under-warnings-as-errors')
+        with envmodes.warnings_as_errors():
+            return _evaluate_modes(ctx, case)
+    return _evaluate_modes(ctx, case)
+
+
+def _evaluate_modes(ctx, case):
+    if case.get('lazy_i18n') and not _em.MODES_OFF[0]:
         from vlib import envmodes
         ctx.clause('under-lazy-translation')
         with envmodes.lazy_i18n():
@@ -470,6 +483,8 @@ def run(ctx):
         idx += 1
         if idx % 5 == 0:
             case = dict(case, lazy_i18n=True)
+        if idx % 4 == 1 and case['kind'] == 'path':
+            case = dict(case, warnings_as_errors=True)
         if idx % 3 == 0 and case['kind'] == 'path' and not case.get('defaults'):
             case = dict(case, kw=True)          # documented parameter names given by keyword
         if ctx.mine(idx):
@@ -482,6 +497,8 @@ def run(ctx):
         nown[0] += 1
         if nown[0] % 5 == 0:
             case = dict(case, lazy_i18n=True)
+        if nown[0] % 4 == 1 and case['kind'] == 'path':
+            case = dict(case, warnings_as_errors=True)
         if nown[0] % 3 == 0 and case['kind'] == 'path' and not case.get('defaults'):
             case = dict(case, kw=True)
         ctx.sample(case['kind'] + '/' + (case.get('cls') or ''), case)
